@@ -40,6 +40,9 @@ func init() {
 				if r.Status == vrt.StatusCrash {
 					return nil // start-up failed loudly, as required
 				}
+				if p.Fail == "rollback-again" && r.Status == vrt.StatusOK {
+					return nil // (followed or not applicable: the scenario's own check decides)
+				}
 				return []string{"a vBucket that could not be reopened after the rollback did not fail the start-up (status " + r.Status.String() + ")"}
 			}
 		}
@@ -58,6 +61,7 @@ func init() {
 				{Scenario: "c08_endincatchup", Params: mustJSON(struct{}{}), Bound: 0, Note: "the re-requested stream ends transiently before it is back at the checkpointed position: re-opened like any other, nothing at or below F shown"},
 				{Scenario: "c08_rollback", Params: mustJSON(RollbackParams{Fail: "failoverlog"}), Bound: 0, Shards: 2},
 				{Scenario: "c08_rollback", Params: mustJSON(RollbackParams{Fail: "reopen"}), Bound: 0, Shards: 2},
+				{Scenario: "c08_rollback", Params: mustJSON(RollbackParams{Fail: "rollback-again"}), Bound: 0, Shards: 4, Note: "the re-request is answered with a second rollback to a lower point: the start-up fails or the second rollback is followed - nothing at or below F is shown"},
 				{Scenario: "c08_rollback", Params: mustJSON(RollbackParams{Fail: "failoverlog-silent"}), Bound: 0, Shards: 2, Note: "the failover-log query is never answered"},
 				{Scenario: "c08_rollback", Params: mustJSON(RollbackParams{Fail: "reopen-silent"}), Bound: 0, Shards: 2, Note: "the second stream request is never answered"},
 				{Scenario: "reopen_life", Params: mustJSON(LifeParams{Oracle: "tuple", Segs: 2, EarlySave: true}), Bound: 0, Shards: 8, Note: "a save BEFORE the branch changes and one after: the stored checkpoint carries the new branch's vbUUID"},
@@ -200,12 +204,35 @@ func rollbackMain(p RollbackParams) {
 		}
 	case "reopen-silent":
 		c.Vb[0].Opens = append(c.Vb[0].Opens, gocbcore.SimOpen{Kind: "drop"})
+	case "rollback-again":
+		// the re-request itself is answered with ANOTHER rollback, to a point below R (two fail-overs in a row):
+		// the client may give up (the start-up fails) or follow it - but whatever it shows afterwards lies above F
+		if R == 0 {
+			vrt.SetOutcome("n/a")
+			return
+		}
+		R2 := uint64(vrt.Choose(int(R), true, "second-rollback-point"))
+		var log2 []gocbcore.SimPacket
+		log2 = append(log2, marker(R2+1, F+2))
+		for s := R2 + 1; s <= F+2; s++ {
+			log2 = append(log2, docPacket("mutation", s, fmt.Sprintf("new%d", s), "after", 0))
+		}
+		c.Vb[0].Opens = append(c.Vb[0].Opens, gocbcore.SimOpen{Kind: "rollback", Rollback: R2, SwapLog: log2, SwapFailover: newFo})
 	}
 	c.Append(1, marker(1, 1), symbolPacket("M", 1))
 	e := NewEnv(c, o)
 	e.Cons.AutoAck = true
 	e.Stream.Open()
 	c.WaitIdle()
+	if p.Fail == "rollback-again" {
+		for _, d := range e.Cons.Events {
+			if d.Vb == 0 && d.Seq <= F {
+				vrt.Failf("failover=%v F=%d R=%d, the re-request answered with a second rollback: event seq %d (at or below the checkpointed position %d) was shown again", shape.starts, F, R, d.Seq, F)
+			}
+		}
+		vrt.SetOutcome("followed")
+		return
+	}
 	if p.Fail != "" {
 		vrt.Failf("Open() returned although vb0 could not be reopened after the rollback")
 		return
